@@ -183,7 +183,12 @@ class HarnessGen:
             L.append('  QX_INPUT(%s, %s); %s = %s;' % (ct.cast(), nm, g, nm))
         args = []
         later = []
+        alias = spec.get('harness_alias', {})
         for nm, t, isref in info['params']:
+            if nm in alias:
+                L.append('  %s = %s;' % (t.decl(nm, keep_const=False), alias[nm]))
+                args.append(nm)
+                continue
             if nm in bufs:
                 later.append((nm, t))
                 args.append(nm)
@@ -240,7 +245,7 @@ class HarnessGen:
         ret = info['ret']
         isvoid = ret.base == 'void' and not ret.derivs
         ghostret = bool(spec.get('ghost_returns'))
-        objs = [(nm, t) for nm, t, isref in info['params'] if not (nm in bufs) and (isref or nm in refs or (t.is_ptr() and t.deref().is_record()))]
+        objs = [(nm, t) for nm, t, isref in info['params'] if not (nm in bufs) and nm not in alias and (isref or nm in refs or (t.is_ptr() and t.deref().is_record()))]
         # ---- native only: run the REAL function on clones first when the postcondition needs ghost code
         L.append('#ifdef QX_NATIVE')
         L.append('  printf("QX-START\\n"); fflush(stdout);')
@@ -252,6 +257,8 @@ class HarnessGen:
                 L.append('  if ((%s) != 0) memcpy((void *)r_%s, %s, ((size_t)(%s)) * sizeof(%s));' % (bufs[nm], nm, nm, bufs[nm], et.cast()))
                 L.append('  r_%s = realloc((void *)r_%s, ((size_t)(%s)) * sizeof(%s));' % (nm, nm, bufs[nm], et.cast()))
                 rargs.append('r_' + nm)
+            elif nm in alias:
+                rargs.append('&ro_' + alias[nm] if any(o[0] == alias[nm] for o in objs) else alias[nm])
             elif (nm, t) in objs:
                 L.append('  %s = o_%s;' % (t.deref().decl('ro_' + nm, keep_const=False), nm))
                 rargs.append('&ro_' + nm)
